@@ -14,7 +14,7 @@ const NS: i128 = 1_000_000_000;
 const DAY: i128 = 86400;
 
 fn ks(t: Tier) -> Vec<i128> {
-    t.pick(vec![0, 1, 2, 3], vec![0, 1, 2, 3, 4, 5, 30, 365])
+    t.pick(vec![0, 1, 2, 3, 5, 30], vec![0, 1, 2, 3, 4, 5, 6, 7, 10, 30, 31, 365, 366, 3650])
 }
 
 fn spec(t: Tier) -> Spec {
@@ -33,7 +33,7 @@ fn spec(t: Tier) -> Spec {
 }
 
 fn phases(t: Tier) -> Vec<i64> {
-    t.pick(vec![0, 500_000_000], vec![0, 1, 500_000_000, 999_999_999])
+    t.pick(vec![0, 1, 500_000_000, 999_999_999], vec![0, 1, 2, 499_999_999, 500_000_000, 500_000_001, 999_999_998, 999_999_999])
 }
 
 fn ns_of(ts: (i64, i64)) -> i128 {
